@@ -971,6 +971,102 @@ def suite_multi_filter(tier, seed):
     return s
 
 
+# ---- C10: "an event is found - or, once removed, not found - identically through every access path" ----------------------
+def suite_access_paths(tier, seed, backend="kv"):
+    s = Suite("oracle:%s-every-access-path" % backend)
+    s.rule = ("stores built through the real write path (5-16 events of regular, replaceable and parameterized kinds, then replacements, kind-5 "
+              "deletions and delete_event removals); every event ever acknowledged is then looked up through every access path the relay offers "
+              "- get_event, ids, kinds, authors, author+kind (also among 260 other authors x 2 kinds), every indexable tag (alone, and listed with "
+              "decoy values of other lengths before and after it), the created_at window: an event whose primary record exists must be found through "
+              "ALL of them, a removed one through NONE; non-trivial = some events were removed and some kept")
+    env = _env()
+    rng = rng_for(seed, "kvpaths")
+    import hashlib
+    decoys = [hashlib.sha256(b"decoy-%d" % i).hexdigest() for i in range(260)]
+
+    async def one(n):
+        evs = gen_history(rng, n, delegation=False)
+        if backend == "kv":
+            st, _ = await load_store(evs, max_limit=BIG)
+            sc = None
+        else:
+            env.load_config(max_limit=BIG)
+            env.patch_clock()
+            sc = env.Scratch()
+            st = await env.sql_storage(sc)
+            for e in evs:
+                try:
+                    await st.add_event(dict(e))
+                except Exception:
+                    pass
+        more = []
+        for k in range(rng.randint(2, 5)):
+            base = rng.choice(evs)
+            who = env.PUBS.index(base["pubkey"])
+            r = rng.random()
+            if r < 0.4:
+                more.append(grind_event(who, rng.choice([10002, 30000]), 1000 + k, [["d", "x"], ["t", "ab"]], None))
+                more.append(grind_event(who, more[-1]["kind"], 1500 + k, [["d", "x"]], None))
+            elif r < 0.8:
+                more.append(grind_event(who, 5, 2001, [["e", base["id"]]], None))
+            else:
+                await st.delete_event(base["id"])
+        for e in more:
+            try:
+                await st.add_event(dict(e))
+            except Exception:
+                pass
+        await env.quiesce(st)
+        have = set(await env.stored_ids(st))
+        out = []
+        for e in evs + more:
+            paths = {"ids": {"ids": [e["id"]]}, "ids+decoy": {"ids": [decoys[0], e["id"], decoys[1]]}, "kinds": {"kinds": [e["kind"]]},
+                     "authors": {"authors": [e["pubkey"]]}, "author+kind": {"authors": [e["pubkey"]], "kinds": [e["kind"]]},
+                     "author+kind/many": {"authors": decoys[:130] + [e["pubkey"]] + decoys[130:], "kinds": [e["kind"], e["kind"] + 1]},
+                     # ... and when the author sorts before / after all the others, whichever way the planner orders its pairs
+                     "author+kind/many-above": {"authors": ["ff" + x[2:] for x in decoys] + [e["pubkey"]], "kinds": [e["kind"] + 1, e["kind"]]},
+                     "author+kind/many-below": {"authors": [e["pubkey"]] + ["00" + x[2:] for x in decoys], "kinds": [e["kind"], e["kind"] + 1]},
+                     # (strictly inside the window: the backends differ on whether `until` itself is included)
+                     "created_at": {"since": max(1, e["created_at"] - 1), "until": e["created_at"] + 1, "kinds": [e["kind"]]}}
+            for tg in e["tags"]:
+                if backend == "sql" and len(tg) > 1 and isinstance(tg[1], str) and "\x00" in tg[1]:
+                    continue            # open finding sql_value_contains_nul (reported by the C02 check under its own classifier)
+                if len(tg) > 1 and isinstance(tg[0], str) and len(tg[0]) == 1 and isinstance(tg[1], str) and len(tg[1].encode()) < 200:
+                    paths["#%s=%r" % (tg[0], tg[1][:12])] = {"#" + tg[0]: [tg[1]]}
+                    paths["#%s=%r/listed" % (tg[0], tg[1][:12])] = {"#" + tg[0]: ["zz-decoy-value", tg[1], tg[1] + "-longer-decoy", "q"]}
+            found = {}
+            g = await st.get_event(e["id"])
+            found["get_event"] = g is not None
+            for name, f in paths.items():
+                try:
+                    validate_filter(dict(f, limit=BIG))
+                except Exception:
+                    continue
+                got, oc = await impl_req(st, [dict(f, limit=BIG)])
+                found[name] = e["id"] in {x["id"] for x in got}
+            out.append((e, e["id"] in have, found))
+        if backend == "kv":
+            await close_store(st)
+        else:
+            await env.close(st)
+            sc.close()
+        return out
+    for _ in range(4 if tier == "quick" else 40):
+        res = env.run(one(rng.choice([5, 9, 16])))
+        kept = sum(1 for _, h, _ in res if h)
+        for e, h, found in res:
+            case = {"event": {"id": e["id"], "kind": e["kind"], "tags": e["tags"], "created_at": e["created_at"]}, "stored": h}
+            s.case({"id": e["id"][:8], "stored": h}, nontrivial=0 < kept < len(res))
+            s.count("stored" if h else "removed")
+            s.count("paths", len(found))
+            wrong = sorted(k for k, v in found.items() if v != h)
+            if wrong:
+                s.violate("%s_access_paths_disagree" % backend, dict(case, paths=found),
+                          "an event whose record %s is %s through: %s" % ("exists" if h else "is gone", "NOT found" if h else "still found", ", ".join(wrong)),
+                          expected=h, observed=found)
+    return s
+
+
 # ---- C01: hostile filter contents ---------------------------------------------
 HOSTILE = ["'", "''", "\\", "\\'", '"', "%", "_", "--", "/*", ";", ")", "\x00", "\n", "‮", "é", "\U0001F600", "{", "}", "{0}",
            "!r", "{value!r}", "__import__('os').system('x')", "' OR 1=1)) --", "1" * 70, "')]) or True or bool([('", "\\x00", "%s", "\ud800",
@@ -1064,11 +1160,12 @@ def suites_c01(tier, seed):
 
 def suites_c02(tier, seed):
     return [suite_corpus(tier, seed, only=("C02",)), suite_scan(tier, seed), suite_multi(tier, seed), suite_plan(tier, seed), suite_answer(tier, seed),
-            suite_oracle(tier, seed, props=("c02",), name="oracle:kv-c02", label="kvc02"), suite_multi_filter(tier, seed)]
+            suite_oracle(tier, seed, props=("c02",), name="oracle:kv-c02", label="kvc02"), suite_multi_filter(tier, seed),
+            suite_access_paths(tier, seed, "kv"), suite_access_paths(tier, seed, "sql")]
 
 
 def suites_c11(tier, seed):
-    return [suite_frame(tier, seed), suite_monotone(tier, seed), suite_union(tier, seed)]
+    return [suite_frame(tier, seed), suite_monotone(tier, seed), suite_union(tier, seed), suite_access_paths(tier, seed, "kv"), suite_access_paths(tier, seed, "sql")]
 
 
 def suites_c12(tier, seed):
